@@ -348,6 +348,13 @@ def gset(guards):
     return set((g[1], g[2]) for g in guards if g[0] == "cmp")
 
 
+def gset_aligned(guards, bits):
+    """gset with bit-length comparisons restated over symbol lengths (nf.align_cmp): for rows about aligned sequences of a concrete
+    codec, `a.bs.len() != b.bs.len()` and `a.len() != b.len()` are the same guard"""
+    src = guards if isinstance(guards, (set, frozenset)) else gset(guards)
+    return set(nf.align_cmp(k, op, bits) for k, op in src)
+
+
 def gshow(gs):
     return "{" + "; ".join("%s %s 0" % (nf.pshow(k), op) for k, op in sorted(gs, key=repr)) + "}"
 
